@@ -4,6 +4,8 @@ verus! {
 //@@ item src/storage/commands/executor.rs SetOptions
 //@@ item src/storage/commands/executor.rs StringCommand
 //@@ item src/storage/commands/executor.rs ListCommand
+//@@ item src/storage/commands/executor.rs SetCommand
+//@@ item src/storage/commands/executor.rs HashCommand
 //@@ include contracts/inc_set_grammar.rs
 
 // C12, parity clause: "redis.call / redis.pcall of a command have the same effect on the dataset and return the same reply ... as
@@ -102,7 +104,7 @@ impl CommandParser {
 
 //@@ unit parse_incrby fn src/storage/commands/executor.rs CommandParser::parse_incrby
 //@@   rewrite R1
-//@@   rewrite RCALL parse "Self::extract_string(&frames[2])?" verif_parse_str
+//@@   rewrite RCALL parse "*" verif_parse_str
 //@@   at "let increment"
 //@@|     proof { axiom_strict_is_lossy_i64(arg(frames@, 2)->Some_0); }
     fn parse_incrby(frames: &[RespFrame]) -> (r: Result<StringCommand>)
@@ -115,7 +117,7 @@ impl CommandParser {
 
 //@@ unit parse_decrby fn src/storage/commands/executor.rs CommandParser::parse_decrby
 //@@   rewrite R1
-//@@   rewrite RCALL parse "Self::extract_string(&frames[2])?" verif_parse_str
+//@@   rewrite RCALL parse "*" verif_parse_str
 //@@   at "let decrement"
 //@@|     proof { axiom_strict_is_lossy_i64(arg(frames@, 2)->Some_0); }
     fn parse_decrby(frames: &[RespFrame]) -> (r: Result<StringCommand>)
@@ -146,7 +148,7 @@ impl CommandParser {
 
 //@@ unit parse_setex fn src/storage/commands/executor.rs CommandParser::parse_setex
 //@@   rewrite R1
-//@@   rewrite RCALL parse "Self::extract_string(&frames[2])?" verif_parse_str
+//@@   rewrite RCALL parse "*" verif_parse_str
 //@@   at "let seconds"
 //@@|     proof { axiom_strict_is_lossy_u64(arg(frames@, 2)->Some_0); }
     fn parse_setex(frames: &[RespFrame]) -> (r: Result<StringCommand>)
@@ -160,7 +162,7 @@ impl CommandParser {
 
 //@@ unit parse_psetex fn src/storage/commands/executor.rs CommandParser::parse_psetex
 //@@   rewrite R1
-//@@   rewrite RCALL parse "Self::extract_string(&frames[2])?" verif_parse_str
+//@@   rewrite RCALL parse "*" verif_parse_str
 //@@   at "let milliseconds"
 //@@|     proof { axiom_strict_is_lossy_u64(arg(frames@, 2)->Some_0); }
     fn parse_psetex(frames: &[RespFrame]) -> (r: Result<StringCommand>)
@@ -228,7 +230,7 @@ impl CommandParser {
 
 //@@ unit parse_lindex fn src/storage/commands/executor.rs CommandParser::parse_lindex
 //@@   rewrite R1
-//@@   rewrite RCALL parse "Self::extract_string(&frames[2])?" verif_parse_str
+//@@   rewrite RCALL parse "*" verif_parse_str
 //@@   at "let index"
 //@@|     proof { axiom_strict_is_lossy_isize(arg(frames@, 2)->Some_0); }
     fn parse_lindex(frames: &[RespFrame]) -> (r: Result<ListCommand>)
@@ -240,7 +242,7 @@ impl CommandParser {
 
 //@@ unit parse_lset fn src/storage/commands/executor.rs CommandParser::parse_lset
 //@@   rewrite R1
-//@@   rewrite RCALL parse "Self::extract_string(&frames[2])?" verif_parse_str
+//@@   rewrite RCALL parse "*" verif_parse_str
 //@@   at "let index"
 //@@|     proof { axiom_strict_is_lossy_isize(arg(frames@, 2)->Some_0); }
     fn parse_lset(frames: &[RespFrame]) -> (r: Result<ListCommand>)
@@ -252,8 +254,7 @@ impl CommandParser {
 
 //@@ unit parse_lrange fn src/storage/commands/executor.rs CommandParser::parse_lrange
 //@@   rewrite R1
-//@@   rewrite RCALL parse "Self::extract_string(&frames[2])?" verif_parse_str
-//@@   rewrite RCALL parse "Self::extract_string(&frames[3])?" verif_parse_str
+//@@   rewrite RCALL parse "*" verif_parse_str
 //@@   at "let start"
 //@@|     proof { axiom_strict_is_lossy_isize(arg(frames@, 2)->Some_0); axiom_strict_is_lossy_isize(arg(frames@, 3)->Some_0); }
     fn parse_lrange(frames: &[RespFrame]) -> (r: Result<ListCommand>)
@@ -265,8 +266,7 @@ impl CommandParser {
 
 //@@ unit parse_ltrim fn src/storage/commands/executor.rs CommandParser::parse_ltrim
 //@@   rewrite R1
-//@@   rewrite RCALL parse "Self::extract_string(&frames[2])?" verif_parse_str
-//@@   rewrite RCALL parse "Self::extract_string(&frames[3])?" verif_parse_str
+//@@   rewrite RCALL parse "*" verif_parse_str
 //@@   at "let start"
 //@@|     proof { axiom_strict_is_lossy_isize(arg(frames@, 2)->Some_0); axiom_strict_is_lossy_isize(arg(frames@, 3)->Some_0); }
     fn parse_ltrim(frames: &[RespFrame]) -> (r: Result<ListCommand>)
@@ -276,12 +276,70 @@ impl CommandParser {
 //@@ body
 //@@ end
 
+//@@ unit parse_sadd fn src/storage/commands/executor.rs CommandParser::parse_sadd
+//@@   rewrite RT "let mut members = Vec::new();" "let mut members: Vec<Vec<u8>> = Vec::new();"
+//@@   loop 0
+//@@|     invariant 2 <= i <= frames@.len(), members@.len() == i - 2, forall|j: int| 2 <= j < i ==> (#[trigger] frames@[j] matches RespFrame::BulkString(Some(_))),
+//@@|         forall|j: int| 0 <= j < i - 2 ==> members@[j] == arg_vec(frames@, j + 2)->Some_0,
+//@@   afterloop 0
+//@@|     proof { assert(members@ =~= args_from(frames@, 2)); }
+    fn parse_sadd(frames: &[RespFrame]) -> (r: Result<SetCommand>)
+        ensures
+            (frames@.len() < 3 || arg(frames@, 1) is None || !all_bulk(frames@, 2)) ==> r is Err,
+            frames@.len() >= 3 && arg(frames@, 1) is Some && all_bulk(frames@, 2) ==>
+                (r matches Ok(SetCommand::SAdd { key, members }) && key@ == arg(frames@, 1)->Some_0 && members@ == args_from(frames@, 2)),
+//@@ body
+//@@ end
+
+//@@ unit parse_scard fn src/storage/commands/executor.rs CommandParser::parse_scard
+    fn parse_scard(frames: &[RespFrame]) -> (r: Result<SetCommand>)
+        ensures
+            (frames@.len() != 2 || arg(frames@, 1) is None) ==> r is Err,
+            frames@.len() == 2 && arg(frames@, 1) is Some ==> (r matches Ok(SetCommand::SCard { key }) && key@ == arg(frames@, 1)->Some_0),
+//@@ body
+//@@ end
+
+//@@ unit parse_sismember fn src/storage/commands/executor.rs CommandParser::parse_sismember
+    fn parse_sismember(frames: &[RespFrame]) -> (r: Result<SetCommand>)
+        ensures
+            (frames@.len() != 3 || arg(frames@, 1) is None || arg(frames@, 2) is None) ==> r is Err,
+            frames@.len() == 3 && arg(frames@, 1) is Some && arg(frames@, 2) is Some ==>
+                (r matches Ok(SetCommand::SIsMember { key, member }) && key@ == arg(frames@, 1)->Some_0 && member@ == arg(frames@, 2)->Some_0),
+//@@ body
+//@@ end
+
+//@@ unit parse_hget fn src/storage/commands/executor.rs CommandParser::parse_hget
+    fn parse_hget(frames: &[RespFrame]) -> (r: Result<HashCommand>)
+        ensures
+            (frames@.len() != 3 || arg(frames@, 1) is None || arg(frames@, 2) is None) ==> r is Err,
+            frames@.len() == 3 && arg(frames@, 1) is Some && arg(frames@, 2) is Some ==>
+                (r matches Ok(HashCommand::HGet { key, field }) && key@ == arg(frames@, 1)->Some_0 && field@ == arg(frames@, 2)->Some_0),
+//@@ body
+//@@ end
+
+//@@ unit parse_hlen fn src/storage/commands/executor.rs CommandParser::parse_hlen
+    fn parse_hlen(frames: &[RespFrame]) -> (r: Result<HashCommand>)
+        ensures
+            (frames@.len() != 2 || arg(frames@, 1) is None) ==> r is Err,
+            frames@.len() == 2 && arg(frames@, 1) is Some ==> (r matches Ok(HashCommand::HLen { key }) && key@ == arg(frames@, 1)->Some_0),
+//@@ body
+//@@ end
+
+//@@ unit parse_hexists fn src/storage/commands/executor.rs CommandParser::parse_hexists
+    fn parse_hexists(frames: &[RespFrame]) -> (r: Result<HashCommand>)
+        ensures
+            (frames@.len() != 3 || arg(frames@, 1) is None || arg(frames@, 2) is None) ==> r is Err,
+            frames@.len() == 3 && arg(frames@, 1) is Some && arg(frames@, 2) is Some ==>
+                (r matches Ok(HashCommand::HExists { key, field }) && key@ == arg(frames@, 1)->Some_0 && field@ == arg(frames@, 2)->Some_0),
+//@@ body
+//@@ end
+
 //@@ unit parse_set fn src/storage/commands/executor.rs CommandParser::parse_set
 //@@   rewrite R1
 //@@   rewrite R3
 //@@   rewrite RPCALL "SetOptions::default" verif_set_options_default
-//@@   rewrite RCALL to_uppercase "Self::extract_string(&frames[i])?" verif_to_upper
-//@@   rewrite RCALL parse "Self::extract_string(&frames[i + 1])?" verif_parse_str
+//@@   rewrite RCALL to_uppercase "*" verif_to_upper
+//@@   rewrite RCALL parse "*" verif_parse_str
 //@@   loop 0
 //@@|     invariant
 //@@|         3 <= i <= frames@.len() + 1, frames@.len() >= 3,
